@@ -30,7 +30,7 @@ class Motion:
     """prescribed frame motion: r(t) cubic with free coefficients, A(t) = A0 Rx(alpha(t)) Rz(theta(t)),
     alpha/theta quadratic with free coefficients; derivatives supplied in closed form (as a user would)."""
 
-    def __init__(self, h, prefix, rotating=True, translating=True, A0=None):
+    def __init__(self, h, prefix, rotating=True, translating=True, A0=None, two_axes=True):
         from cardillo.math import Exp_SO3_quat
         self.h = h
         self.c = [h.vec(f"{prefix}_r{k}_", 3) for k in range(4)] if translating else None
@@ -39,8 +39,9 @@ class Motion:
         if A0 is None:
             A0 = Exp_SO3_quat(h.quat(f"{prefix}_P"))
         self.A0 = A0
+        self.two_axes = two_axes
         if rotating:
-            self.al = [h.angle(f"{prefix}_al0"), h.real(f"{prefix}_al1"), h.real(f"{prefix}_al2")]
+            self.al = [h.angle(f"{prefix}_al0"), h.real(f"{prefix}_al1"), h.real(f"{prefix}_al2")] if two_axes else None
             self.th = [h.angle(f"{prefix}_th0"), h.real(f"{prefix}_th1"), h.real(f"{prefix}_th2")]
 
     def r(self, t):
@@ -85,6 +86,12 @@ class Motion:
     def _A_all(self, t):
         h = self.h
         dt = t - self.t_star
+        if not self.two_axes:
+            th = self.th[0] + self.th[1] * dt + self.th[2] * dt * dt
+            thd = self.th[1] + 2 * self.th[2] * dt
+            thdd = 2 * self.th[2]
+            Z, dZ, ddZ = rot_z(h, th)
+            return self.A0 @ Z, self.A0 @ (dZ * thd), self.A0 @ (ddZ * thd * thd + dZ * thdd)
         a = self.al[0] + self.al[1] * dt + self.al[2] * dt * dt
         ad = self.al[1] + 2 * self.al[2] * dt
         add = 2 * self.al[2]
@@ -108,3 +115,99 @@ class Motion:
         from cardillo.discrete import Frame
         self.t_star = t_star
         return Frame(r_OP=self.r, r_OP_t=self.r_t, r_OP_tt=self.r_tt, A_IB=self.A, A_IB_t=self.A_t, A_IB_tt=self.A_tt, name=name)
+
+
+# ----------------------------------------------------------------------------- systems
+def rnd_unit_quat(rng):
+    p = rng.normal(size=4)
+    return p / np.linalg.norm(p)
+
+
+def rnd_q_rb(rng):
+    return np.concatenate([np.round(rng.normal(size=3) * 8) / 8, rnd_unit_quat(rng)])
+
+
+def make_rb(rng, name, mass=None, theta=None):
+    from cardillo.discrete import RigidBody
+    mass = 1.5 if mass is None else mass
+    theta = np.diag([1.0, 2.0, 3.0]) if theta is None else theta
+    return RigidBody(mass, theta, q0=rnd_q_rb(rng), name=name)
+
+
+def make_pm(rng, name, mass=1.25):
+    from cardillo.discrete import PointMass
+    return PointMass(mass, q0=np.round(rng.normal(size=3) * 8) / 8, name=name)
+
+
+def exact_rotation(h, rng):
+    """exactly orthonormal rational rotation matrix from a small integer quaternion (float constants
+    computed by numpy are orthonormal only up to rounding, which the exact-real encoding would see)"""
+    from fractions import Fraction
+    while True:
+        P = [int(x) for x in rng.integers(-4, 5, size=4)]
+        n2 = sum(x * x for x in P)
+        if n2 > 0 and sum(1 for x in P if x) >= 3:
+            break
+    p0, p1, p2, p3 = P
+    F = lambda x: Fraction(x, n2)
+    A = [[F(p0*p0 + p1*p1 - p2*p2 - p3*p3), F(2*(p1*p2 - p0*p3)), F(2*(p1*p3 + p0*p2))],
+         [F(2*(p1*p2 + p0*p3)), F(p0*p0 - p1*p1 + p2*p2 - p3*p3), F(2*(p2*p3 - p0*p1))],
+         [F(2*(p1*p3 - p0*p2)), F(2*(p2*p3 + p0*p1)), F(p0*p0 - p1*p1 - p2*p2 + p3*p3)]]
+    return h.arr([[h.const(x) for x in row] for row in A])
+
+
+def make_frame(h, rng, name, moving=True, two_axes=True):
+    """frame with concrete orientation offset and (if moving) symbolic polynomial motion"""
+    from cardillo.discrete import Frame
+    A0 = exact_rotation(h, rng)
+    if not moving:
+        return Frame(r_OP=np.round(rng.normal(size=3) * 8) / 8, A_IB=A0, name=name), None
+    mo = Motion(h, name, A0=A0, two_axes=two_axes)
+    return mo.frame(0.0, name=name), mo
+
+
+def assemble(sysm):
+    """assemble with DOF bookkeeping only (no consistent initial conditions)"""
+    from cardillo.solver import SolverOptions
+    sysm.assemble(options=SolverOptions(compute_consistent_initial_conditions=False))
+    return sysm
+
+
+def sys_state(h, sysm, with_ud=True):
+    """symbolic system state; quaternion parts of rigid bodies / rods are assumed nonzero"""
+    from cardillo.discrete import RigidBody
+    t = h.real("t")
+    q = h.vec("q", sysm.nq)
+    u = h.vec("u", sysm.nu)
+    ud = h.vec("ud", sysm.nu) if with_ud else None
+    for c in sysm.contributions:
+        if isinstance(c, RigidBody):
+            P = q[c.qDOF[3:7]]
+            h.assume(P @ P > 0, "quaternion nonzero")
+    return t, q, u, ud
+
+
+def hierarchy(h, j, sysm, t, q, u, ud, levels, dq=None, prefix=""):
+    """kinematic hierarchy of a bilateral constraint object j with g, g_dot, g_ddot, W_g, g_q, g_dot_q, Wla_g_q"""
+    nq, nu = sysm.nq, sysm.nu
+    qD, uD = j.qDOF, j.uDOF
+    qd = sysm.q_dot(t, q, u)
+    g = lambda t_, q_: np.atleast_1d(j.g(t_, q_[qD]))
+    gd = lambda t_, q_, u_: np.atleast_1d(j.g_dot(t_, q_[qD], u_[uD]))
+    one = 1.0
+    if "vel" in levels:
+        h.eq(prefix + "g_dot = d/dt g", h.D(g, (t, q), (one, qd)), gd(t, q, u))
+        du = h.vec("du", nu)
+        h.eq(prefix + "W_g = (d g_dot / d u)^T", h.D(lambda u_: gd(t, q, u_), (u,), (du,)), j.W_g(t, q[qD]).T @ du[uD])
+        h.eq(prefix + "g_dot_u = W_g^T", j.g_dot_u(t, q[qD]), j.W_g(t, q[qD]).T)
+    if "acc" in levels:
+        h.eq(prefix + "g_ddot = d/dt g_dot", h.D(gd, (t, q, u), (one, qd, ud)), np.atleast_1d(j.g_ddot(t, q[qD], u[uD], ud[uD])))
+    if dq is None and ("g_q" in levels or "g_dot_q" in levels or "Wla_g_q" in levels):
+        dq = h.vec("dq", nq)
+    if "g_q" in levels:
+        h.eq(prefix + "g_q", h.D(lambda q_: g(t, q_), (q,), (dq,)), np.atleast_2d(j.g_q(t, q[qD])) @ dq[qD])
+    if "g_dot_q" in levels:
+        h.eq(prefix + "g_dot_q", h.D(lambda q_: gd(t, q_, u), (q,), (dq,)), np.atleast_2d(j.g_dot_q(t, q[qD], u[uD])) @ dq[qD])
+    if "Wla_g_q" in levels:
+        la = h.vec("la", j.nla_g)
+        h.eq(prefix + "Wla_g_q", h.D(lambda q_: j.W_g(t, q_[qD]) @ la, (q,), (dq,)), j.Wla_g_q(t, q[qD], la) @ dq[qD])
